@@ -87,22 +87,44 @@ def strip_coq_comments(t):
     return "".join(out)
 
 
-def coq_hygiene():
-    """grep the development for forbidden vernacular; returns list of offending (file,line)"""
+def strip_coq_strings(t):
+    return re.sub(r'"(?:[^"]|"")*"', '""', t)
+
+
+def coq_deps(pid_file):
+    """transitive closure of SharkV/SharkGen modules imported by a .v file (paths)"""
+    seen, todo = {}, [pid_file]
+    while todo:
+        f = todo.pop()
+        if f in seen or not os.path.exists(f):
+            continue
+        txt = strip_coq_comments(open(f).read()); seen[f] = True
+        for mm in re.finditer(r"(?:From\s+(SharkV|SharkGen)\s+)?Require\s+(?:Import|Export)\s+([^.]*)\.", txt):
+            for x in mm.group(2).split():
+                x = x.split(".")[-1]
+                for sub in ("theories", "gen"):
+                    cand = os.path.join(COQ, sub, x + ".v")
+                    if os.path.exists(cand):
+                        todo.append(cand)
+    return sorted(seen)
+
+
+def coq_hygiene(files=None):
+    """grep the development (or the given files) for forbidden vernacular; returns offending lines"""
     bad = []
-    for d, _, fs in os.walk(COQ):
-        for f in fs:
-            if f.endswith(".v"):
-                p = os.path.join(d, f)
-                txt = strip_coq_comments(open(p).read())
-                for n, l in enumerate(txt.split("\n"), 1):
-                    if _FORBIDDEN.search(l):
-                        bad.append("%s:%d:%s" % (p, n, l.strip()))
-                    if re.match(r"\s*(Variable|Variables|Hypothesis|Hypotheses)\b", l):
-                        # allowed only inside a Section: checked coarsely by looking for an open section
-                        pre = "\n".join(txt.split("\n")[:n])
-                        if len(re.findall(r"^\s*Section\s", pre, re.M)) <= len(re.findall(r"^\s*End\s", pre, re.M)):
-                            bad.append("%s:%d:%s (outside section)" % (p, n, l.strip()))
+    if files is None:
+        files = []
+        for d, _, fs in os.walk(COQ):
+            files += [os.path.join(d, f) for f in fs if f.endswith(".v")]
+    for p in files:
+        txt = strip_coq_strings(strip_coq_comments(open(p).read()))
+        for n, l in enumerate(txt.split("\n"), 1):
+            if _FORBIDDEN.search(l):
+                bad.append("%s:%d:%s" % (p, n, l.strip()))
+            if re.match(r"\s*(Variable|Variables|Hypothesis|Hypotheses)\b", l):
+                pre = "\n".join(txt.split("\n")[:n])
+                if len(re.findall(r"^\s*Section\s", pre, re.M)) <= len(re.findall(r"^\s*End\s", pre, re.M)):
+                    bad.append("%s:%d:%s (outside section)" % (p, n, l.strip()))
     return bad
 
 
@@ -185,9 +207,14 @@ def extract_model(pid, extract_v, driver_ml, exe_name=None):
     stamp = os.path.join(d, "stamp")
     if os.path.exists(exe) and os.path.exists(stamp) and open(stamp).read() == h.hexdigest():
         return exe
-    ok, lg = coq_build()
+    # build only the modules the extraction file imports (models stay usable when some proof file breaks,
+    # and parallel checks do not rebuild each other's files)
+    mods = []
+    for mm in re.finditer(r"From\s+(SharkV|SharkGen)\s+Require\s+Import\s+([^.]*)\.", strip_coq_comments(open(ev).read())):
+        sub = "theories" if mm.group(1) == "SharkV" else "gen"
+        mods += ["%s/%s.vo" % (sub, x) for x in mm.group(2).split()]
+    ok, lg = coq_build(mods or None)
     if not ok:
-        # models must still be usable when a proof file breaks: require only that model files built
         log("coq build reported errors (continuing to extraction):\n" + lg[-2000:])
     for f in os.listdir(d):
         if f.endswith((".ml", ".mli", ".cmi", ".cmx", ".o")):
@@ -331,8 +358,10 @@ class Check:
 
     def proofs(self, pid=None):
         """build + re-check the property file; registers one obligation per theorem"""
-        bad = coq_hygiene()
-        self.oblige("coq-hygiene(no Admitted/Axiom/Parameter/guard switches)", not bad, "; ".join(bad[:5]))
+        deps = coq_deps(os.path.join(COQ, "theories", "Properties_%s.v" % (pid or self.pid)))
+        bad = coq_hygiene(deps)
+        self.notes["coq_files_checked"] = [os.path.relpath(f, COQ) for f in deps]
+        self.oblige("coq-hygiene(no Admitted/admit/Axiom/Parameter/Conjecture/guard switches in %d files the property file depends on)" % len(deps), not bad, "; ".join(bad[:5]))
         r = coq_props(pid or self.pid)
         if not r["ok"]:
             self.oblige("Properties_%s.v compiles" % (pid or self.pid), False, r["log"][-1500:])
